@@ -830,6 +830,8 @@ func (i *interpreter) runPath(prefix []int32) {
 	}
 	end := "complete"
 	var endReason string
+	i.panicStack = nil
+	i.callStack = i.callStack[:0]
 	func() {
 		defer func() {
 			if r := recover(); r != nil {
@@ -840,7 +842,7 @@ func (i *interpreter) runPath(prefix []int32) {
 				case targetPanic:
 					end = "panic"
 					endReason = i.panicString(r.v)
-					i.pathPanicked(endReason)
+					i.pathPanicked(endReason + " @ " + i.fmtPanicStack())
 				default:
 					// runtime error of the target program raised natively by the
 					// interpreter (index out of range, nil deref, ...) or an
@@ -849,7 +851,7 @@ func (i *interpreter) runPath(prefix []int32) {
 					if isTargetRuntimeError(r) {
 						end = "panic"
 						endReason = msg
-						i.pathPanicked(msg)
+						i.pathPanicked(msg + " @ " + i.fmtPanicStack())
 					} else {
 						end = "unsupported"
 						endReason = "interpreter: " + firstLine(msg)
